@@ -316,6 +316,16 @@ CHECKS += [
          technique="lifted execution of the contraction utilities on z3 real terms with solver-decided zero shortcuts; z3 QF_NRA equality proofs"),
 ]
 
+CHECKS += [
+    dict(property_id="C49", category="other", engine=E1,
+         text="Partial (algebraic functions): qp.math.reduce_dm, partial_trace, reduce_statevector, dm_from_state_vector (every index subset and order of 2- and 3-qubit "
+              "systems, batched and unbatched), purity, fidelity_statevector (value and symmetry), expectation_value, marginal_prob, expand_matrix and expand_vector (every wire "
+              "subset/order into 3-wire orders) run on vectors / Hermitian matrices with SYMBOLIC entries; z3 proves equality with explicit index contractions for all entries.",
+         note=PROOF_NOTE + " Outside (category 'other': partial): mixed-state fidelity, trace_distance, entropies, mutual information, relative entropy, sqrt_matrix - defined through "
+              "eigen-decompositions / matrix functions that cannot be carried on solver terms - and the inequality bounds stated in the property.",
+         technique="lifted execution of qp.math tensor manipulations on z3 complex-polynomial terms; z3 QF_NRA equality proofs"),
+]
+
 _NOT_BUILT = "claimed in DESIGN.md §4 but its solver-based check is not built yet in this tree"
 NOT_APPLICABLE_REASONS = {
     "C04": "equality/hash: Python hash() of concrete payloads and tolerance-based allclose relations; no exact relation a solver can decide",
